@@ -668,7 +668,7 @@ static std::string typesKey(const Cfg& g)
   return s;
 }
 
-static void validateModel(Ctx& c, const Cfg& g, Model* m, const std::string& ep, Vario* vario)
+static void validateModel(Ctx& c, const Cfg& g, Model* m, const std::string& ep, double gmax)
 {
   int ncov = m->getCovaNumber();
   std::string cls = std::string(SRCN[g.src]) + ":nvar=" + std::to_string(g.nvar);
@@ -710,7 +710,7 @@ static void validateModel(Ctx& c, const Cfg& g, Model* m, const std::string& ep,
   {
     const CovAniso* cv = m->getCova(k);
     std::string tk     = std::string(cv->getType().getKey());
-    std::string kcls   = exotic ? "exotic-type:" + tk : cls;
+    std::string kcls   = exotic ? "exotic-type" : cls;
     // ---- sill-psd
     Mat S(g.nvar, g.nvar);
     bool fin = true, sym = true;
@@ -810,7 +810,9 @@ static void validateModel(Ctx& c, const Cfg& g, Model* m, const std::string& ep,
     {
       double tot = 0;
       for (int k = 0; k < ncov; k++) tot += m->getCova(k)->getSill(iv, iv);
-      double tol = 1e-6 * g.constSill;
+      // the sills solve a constrained least-squares system whose right-hand side has the magnitude of the
+      // experimental values (gmax): absolute accuracy cannot be better than a multiple of eps * gmax
+      double tol = 1e-6 * g.constSill + 1e4 * EPS * gmax;
       double err = std::fabs(tot - g.constSill);
       if (!std::isfinite(tot)) err = INFINITY;
       std::string red = g.noreduce ? "noreduce" : (ncov < (int)g.types.size() ? "structures-reduced" : "reduce-allowed-none-discarded");
@@ -908,7 +910,6 @@ static void validateModel(Ctx& c, const Cfg& g, Model* m, const std::string& ep,
     for (int k = 0; k < ncov; k++) gotHas |= (tinfo(m->getCovaType(k)).minOrder == 0);
     if (reqHas) c.truth("opt-keepintstr", "C17:opt:keepIntstr-but-no-intrinsic-structure-left", gotHas && ncov >= 1, "");
   }
-  (void)vario;
   (void)ep;
 }
 
@@ -1068,6 +1069,28 @@ static void run_case(Rng& r, Ctx& c)
     g.dpas = g.L / nx;
   }
 
+  // magnitude of the experimental values
+  double gmax = 0;
+  if (vario)
+  {
+    for (int id = 0; id < vario->getDirectionNumber(); id++)
+      for (int iv = 0; iv < g.nvar; iv++)
+        for (int ip = 0; ip < vario->getLagNumber(id); ip++)
+        {
+          double v = vario->getGg(id, iv, iv, ip, false, false);
+          if (!FFFF(v) && std::isfinite(v)) gmax = std::max(gmax, std::fabs(v));
+        }
+  }
+  else
+  {
+    for (int s = 0; s < dbmap->getSampleNumber(); s++)
+    {
+      double v = dbmap->getZVariable(s, 0);
+      if (!FFFF(v) && std::isfinite(v)) gmax = std::max(gmax, std::fabs(v));
+    }
+  }
+  c.putn("gmax", gmax);
+
   // ---- options / constraints
   Option_VarioFit ov(g.noreduce, g.authAniso, g.authRot, g.lockSameRot, g.lockRot2d, g.lockNo3d, g.lockIso2d);
   ov.setFlagGoulardUsed(g.goulard);
@@ -1103,9 +1126,13 @@ static void run_case(Rng& r, Ctx& c)
   catch (const std::exception& e)
   {
     // The documented failure protocol is the return code ("@return 0 if no error, 1 otherwise").
-    std::string cls = g.expectFail.empty() ? std::string("patho=") + PATN[g.patho] : g.expectFail;
-    if (hasExotic(g)) cls = "exotic-type";
-    if (g.src == SRC_VMAP && g.nvar > 1 && g.expectFail.empty()) cls = "multivariate-vmap";
+    std::string cls = g.expectFail.empty() ? std::string("valid-request:patho=") + PATN[g.patho] : g.expectFail;
+    if (g.expectFail.empty())
+    {
+      if (hasExotic(g)) cls = "exotic-type";
+      else if (g.src == SRC_VMAP && g.nvar > 1) cls = "multivariate-vmap";
+      else if (!FFFF(g.constSill) && g.nvar > 1) cls = "constant-sill-multivariate";
+    }
     c.check("no-exception", "C17:exception-instead-of-error-code:" + ep + ":" + cls, false, 1, 0,
             std::string(e.what()).substr(0, 200) + " types " + typesKey(g));
     return;
@@ -1137,7 +1164,7 @@ static void run_case(Rng& r, Ctx& c)
     c.truth("structures-subset", "C17:model:no-structure-left:" + std::string(SRCN[g.src]), false, "fit returned 0 with an empty model");
     return;
   }
-  validateModel(c, g, model.get(), ep, vario.get());
+  validateModel(c, g, model.get(), ep, gmax);
   useModel(r, c, g, model.get());
 }
 
